@@ -1,4 +1,5 @@
 import PyGam.Proofs.Exposure
+import PyGam.Proofs.ExposureStats
 import Mathlib.Tactic.Ring
 /-!
 # C19 — PoissonGAM exposure is equivalent to rate modelling with exposure weights
@@ -8,6 +9,7 @@ Property theorems only.  `cast` is the `astype('f')` the code applies to `exposu
 Algebraic statements hold over every field (`ℚ`, `ℝ`) and for *any* function `log`; the statements that
 use `log (a b) = log a + log b` are over `ℝ`.
 -/
+set_option linter.unusedSectionVars false
 open Finset
 namespace PyGam.C19
 open PyGam PyGam.Exposure
@@ -213,6 +215,182 @@ theorem poissonLogPmf_eq (norm : α → α) (k m : α) :
 
 end loglik
 
+/-! ### every statistic / gridsearch objective derived from the log-likelihood is the one of the COUNTS
+
+`PoissonGAM.fit(X, y, exposure, weights)` hands the *converted* data to `GAM.fit`, whose
+`_estimate_model_statistics` computes `statistics_['loglikelihood' | 'AIC' | 'AICc' | 'UBRE' | 'pseudo_r2']`
+from it (`Model/ExposureStats.lean`).  Because `PoissonGAM._loglikelihood` turns the rates back into counts,
+these are the statistics of the counts at mean rate × exposure — also the scores `gridsearch` compares. -/
+
+section stats
+variable [Field α] [LinearOrder α] [IsStrictOrderedRing α] [LogOp α]
+
+/-- the log-likelihood `_estimate_model_statistics` works with during a fit with exposure *is* the public
+`loglikelihood(X, y, exposure, weights)` at the training data (for an idempotent cast, as float32 rounding is) -/
+theorem fit_loglik_eq_loglikelihood (cast round norm : α → α) (hc : ∀ x, cast (cast x) = cast x)
+    (n : Nat) (mu y : Nat → α) (e w : Option (Nat → α)) :
+    fitLoglik cast round norm n mu y e w = loglikelihood cast round norm n mu y e w := by
+  unfold fitLoglik loglikelihood fitRates fitWeights loglikInner logPdf rescaleCounts exposureToWeights
+  apply sumTo_congr; intro i _
+  cases w <;> simp [optVec, hc]
+
+/-- `statistics_['loglikelihood']` of a fit with exposure (no sample weights, counts `y`): the Poisson
+log-probability of the observed counts at mean rate × exposure -/
+theorem fit_loglik_is_poisson_at_rate_times_exposure (cast round norm : α → α)
+    (hc : ∀ x, cast (cast x) = cast x) (n : Nat) (mu y e : Nat → α) (he : ∀ i < n, cast (e i) ≠ 0)
+    (hy : ∀ i < n, round (y i) = y i) :
+    fitLoglik cast round norm n mu y (some e) none
+      = sumTo n (fun i => poissonLogPmf norm (y i) (mu i * cast (e i))) := by
+  rw [fit_loglik_eq_loglikelihood cast round norm hc,
+    loglikelihood_is_poisson_at_rate_times_exposure cast round norm hc n mu y e he hy]
+
+/-- `statistics_['AIC']` (the score of `gridsearch(objective='AIC')`): `-2 Σ logpmf(yᵢ ; μᵢ eᵢ) + 2 edof` -/
+theorem fit_aic_is_count_aic (cast round norm : α → α) (hc : ∀ x, cast (cast x) = cast x)
+    (n : Nat) (mu y e : Nat → α) (edof : α) (he : ∀ i < n, cast (e i) ≠ 0)
+    (hy : ∀ i < n, round (y i) = y i) :
+    fitAIC cast round norm n mu y (some e) none edof
+      = -2 * sumTo n (fun i => poissonLogPmf norm (y i) (mu i * cast (e i))) + 2 * edof := by
+  unfold fitAIC
+  rw [aic_known, fit_loglik_is_poisson_at_rate_times_exposure cast round norm hc n mu y e he hy]
+
+/-- `statistics_['AICc']` (the score of `gridsearch(objective='AICc')`) -/
+theorem fit_aicc_is_count_aicc (cast round norm : α → α) (hc : ∀ x, cast (cast x) = cast x)
+    (n : Nat) (mu y e : Nat → α) (edof : α) (he : ∀ i < n, cast (e i) ≠ 0)
+    (hy : ∀ i < n, round (y i) = y i) :
+    fitAICc cast round norm n mu y (some e) none edof
+      = -2 * sumTo n (fun i => poissonLogPmf norm (y i) (mu i * cast (e i))) + 2 * edof
+        + 2 * (edof + 1) * (edof + 2) / ((n : α) - edof - 2) := by
+  unfold fitAICc
+  rw [aicc_eq, fit_aic_is_count_aic cast round norm hc n mu y e edof he hy]
+
+/-- with sample weights (exact float32 product): the AIC of the counts `round(yᵢ wᵢ)` at mean `μᵢ wᵢ eᵢ` -/
+theorem fit_aic_weighted (cast round norm : α → α) (hc : ∀ x, cast (cast x) = cast x)
+    (n : Nat) (mu y e w : Nat → α) (edof : α) (he : ∀ i < n, cast (e i) ≠ 0)
+    (hx : ∀ i < n, cast (cast (w i) * cast (e i)) = cast (w i) * cast (e i)) :
+    fitAIC cast round norm n mu y (some e) (some w) edof
+      = -2 * sumTo n (fun i => poissonLogPmf norm (round (y i * cast (w i)))
+          (mu i * (cast (w i) * cast (e i)))) + 2 * edof := by
+  unfold fitAIC
+  rw [aic_known, fit_loglik_eq_loglikelihood cast round norm hc,
+    loglikelihood_general cast round norm hc n mu y e w he hx]
+
+/-- the deviance `_estimate_model_statistics` works with is the weighted Poisson deviance of the counts at mean
+exposure × rate -/
+theorem fit_deviance_is_count_deviance (cast : α → α) (hc : ∀ x, cast (cast x) = cast x)
+    (n : Nat) (mu y e w : Nat → α) (he : ∀ i < n, cast (e i) ≠ 0)
+    (hx : ∀ i < n, cast (cast (w i) * cast (e i)) = cast (w i) * cast (e i)) :
+    fitDeviance cast n mu y (some e) (some w)
+      = weightedDev n y (fun i => cast (e i) * mu i) (fun i => cast (w i)) := by
+  rw [← weighted_deviance_of_converted_data cast n y e w mu he hx]
+  unfold fitDeviance fitRates weightedDev
+  apply sumTo_congr; intro i _
+  rw [fitWeights_some_some cast hc]
+  simp [exposureToWeights, optVec]
+
+/-- `statistics_['UBRE']` (the score of `gridsearch(objective='UBRE' | 'auto')`): the deviance of the counts
+over `n` plus `2 γ edof / n`, `γ = 1.4` -/
+theorem fit_ubre_is_count_ubre (cast : α → α) (hc : ∀ x, cast (cast x) = cast x)
+    (n : Nat) (mu y e w : Nat → α) (edof : α) (he : ∀ i < n, cast (e i) ≠ 0)
+    (hx : ∀ i < n, cast (cast (w i) * cast (e i)) = cast (w i) * cast (e i)) :
+    fitUBRE cast n mu y (some e) (some w) edof
+      = weightedDev n y (fun i => cast (e i) * mu i) (fun i => cast (w i)) / (n : α)
+        + 2 * (14 / 10) * edof / (n : α) := by
+  unfold fitUBRE
+  rw [ubre_known, fit_deviance_is_count_deviance cast hc n mu y e w he hx]
+
+/-- `pseudo_r2['McFadden']`: one minus the ratio of the log-probability of the counts at mean `μᵢ eᵢ` to that at
+mean `r̄ eᵢ`, `r̄` the mean observed rate (the null model of `_estimate_r2`) -/
+theorem fit_mcfadden_is_count_mcfadden (cast round norm : α → α) (hc : ∀ x, cast (cast x) = cast x)
+    (n : Nat) (mu y e : Nat → α) (he : ∀ i < n, cast (e i) ≠ 0) (hy : ∀ i < n, round (y i) = y i) :
+    fitMcFadden cast round norm n mu y (some e) none
+      = 1 - sumTo n (fun i => poissonLogPmf norm (y i) (mu i * cast (e i)))
+          / sumTo n (fun i => poissonLogPmf norm (y i)
+              (sumTo n (fun j => y j / cast (e j)) / (n : α) * cast (e i))) := by
+  unfold fitMcFadden Stats.mcFadden
+  rw [fit_loglik_is_poisson_at_rate_times_exposure cast round norm hc n mu y e he hy,
+    fit_loglik_is_poisson_at_rate_times_exposure cast round norm hc n _ y e he hy]
+  simp only [fitNullMu, Stats.meanOf, natTo_eq_cast']
+  rfl
+
+end stats
+
+/-! ### the unit of the exposure is immaterial
+
+Expressing the exposure in another unit (`e ↦ c e`, e.g. person-years → 10⁹ person-years, `c = 10⁻⁹`) changes the
+rates to `rate / c` and nothing else: the objective of the fit and the log-likelihood are those of the counts. -/
+
+section units
+variable [Field α] [LinearOrder α] [IsStrictOrderedRing α] [LogOp α]
+
+/-- the weighted deviance of the data converted with exposure `c e` at rates `r / c` is the one of the data
+converted with exposure `e` at rates `r` (exact arithmetic) -/
+theorem exposure_unit_change_deviance (n : Nat) (c : α) (hc : c ≠ 0) (y e w r : Nat → α)
+    (he : ∀ i < n, e i ≠ 0) :
+    weightedDev n (exposureToWeights id y (some (fun i => c * e i)) (some w)).1 (fun i => r i / c)
+        (exposureToWeights id y (some (fun i => c * e i)) (some w)).2
+      = weightedDev n (exposureToWeights id y (some e) (some w)).1 r
+        (exposureToWeights id y (some e) (some w)).2 := by
+  rw [weighted_deviance_of_converted_data id n y (fun i => c * e i) w (fun i => r i / c)
+        (fun i hi => mul_ne_zero hc (he i hi)) (fun _ _ => rfl),
+    weighted_deviance_of_converted_data id n y e w r he (fun _ _ => rfl)]
+  unfold weightedDev
+  apply sumTo_congr; intro i _
+  simp only [id]
+  congr 2
+  field_simp
+
+/-- … and so is the log-likelihood: at rates `μ / c` with exposure `c e` it is the one at rates `μ` with exposure `e` -/
+theorem exposure_unit_change_loglikelihood (round norm : α → α) (n : Nat) (c : α) (hc : c ≠ 0)
+    (mu y e : Nat → α) (he : ∀ i < n, e i ≠ 0) (hy : ∀ i < n, round (y i) = y i) :
+    loglikelihood id round norm n (fun i => mu i / c) y (some (fun i => c * e i)) none
+      = loglikelihood id round norm n mu y (some e) none := by
+  rw [loglikelihood_is_poisson_at_rate_times_exposure id round norm (fun _ => rfl) n _ y _
+        (fun i hi => mul_ne_zero hc (he i hi)) hy,
+    loglikelihood_is_poisson_at_rate_times_exposure id round norm (fun _ => rfl) n mu y e he hy]
+  apply sumTo_congr; intro i _
+  simp only [id]
+  congr 1
+  field_simp
+
+end units
+
+/-! ### "gridsearch returns a fitted model minimising the requested objective"
+
+`PoissonGAM.gridsearch` is `GAM.gridsearch` on the converted data (`gridsearch_eq_base_gridsearch_on_rates`); the
+candidate loop of `GAM.gridsearch` is `Search.loop` (`Model/Search.lean`, tied to the code by C10).  Its scores are
+`statistics_[objective]` of the candidates, i.e. the `fitAIC / fitAICc / fitUBRE` above — finite numbers. -/
+
+/-- if at least one candidate can be fitted and has a score below `inf` (any finite AIC / AICc / UBRE), the search
+on a not-yet-fitted model ends with a best model (so `self` is returned fitted), that model is one of the
+candidates and its score is the minimum of the scores of all fitted candidates -/
+theorem gridsearch_returns_fitted_minimiser [LinearOrder α] (inf : α) (outs : List (Option α)) (s : α)
+    (hs : some s ∈ outs) (hlt : s < inf) :
+    ∃ r, (Search.loop inf none outs).best = some r
+      ∧ (r, (Search.loop inf none outs).bestScore) ∈ (Search.loop inf none outs).models
+      ∧ ∀ x ∈ (Search.loop inf none outs).models, (Search.loop inf none outs).bestScore ≤ x.2 :=
+  loop_best_of_finite inf outs s hs hlt
+
+/-- conversely (what goes wrong when the objective of every candidate is `inf`): no candidate is ever `< inf`, there
+is no best model and `self` stays unfitted -/
+theorem gridsearch_all_inf_has_no_best [LinearOrder α] (inf : α) (outs : List (Option α))
+    (h : ∀ o ∈ outs, o = none ∨ o = some inf) :
+    (Search.loop inf none outs).best = none := by
+  have key : ∀ (st : Search.LoopState α) (i : Nat), st.best = none → st.bestScore = inf →
+      (∀ o ∈ outs, o = none ∨ o = some inf) → (Search.loopFrom st i outs).best = none := by
+    induction outs with
+    | nil => intro st i hb _ _; exact hb
+    | cons o os ih =>
+      intro st i hb hsc ho
+      have ho' : ∀ o ∈ os, o = none ∨ o = some inf := fun o' h' => ho o' (List.mem_cons_of_mem _ h')
+      rcases ho o (List.mem_cons_self) with rfl | rfl
+      · exact ih (fun o' h' => h o' (List.mem_cons_of_mem _ h')) st (i + 1) hb hsc ho'
+      · have hstep : (Search.step st i (some inf)).best = none
+            ∧ (Search.step st i (some inf)).bestScore = inf := by
+          unfold Search.step
+          simp [hsc, hb]
+        exact ih (fun o' h' => h o' (List.mem_cons_of_mem _ h')) _ (i + 1) hstep.1 hstep.2 ho'
+  exact key (Search.initState inf none) 0 rfl rfl h
+
 /-! ### non-vacuity: concrete instances of the hypotheses, evaluated -/
 
 example : roundHalfEven ((7 : ℚ) / (3/8) * (1 * (3/8))) = 7 := by
@@ -222,5 +400,9 @@ example : (exposureToWeights (α := ℚ) id (fun _ => 6) (some (fun _ => 3/2)) (
   constructor <;> norm_num [exposureToWeights, optVec]
 example : roundHalfEven (5/2) = 2 ∧ roundHalfEven (7/2) = 4 ∧ roundHalfEven (-5/2) = -2 := by decide +kernel
 example : castF32 (1/10) = 13421773/134217728 := by decide +kernel
+/-- the hypotheses of `gridsearch_returns_fitted_minimiser` / `gridsearch_all_inf_has_no_best` on concrete searches
+(`inf := 1000`): a skipped candidate, then AIC 7, then AIC 5 → the third candidate is kept; all-`inf` → none -/
+example : (Search.loop (1000 : Int) none [none, some 7, some 5]).best = some (Search.Ref.cand 2) := by decide
+example : (Search.loop (1000 : Int) none [some 1000, none, some 1000]).best = none := by decide
 
 end PyGam.C19
